@@ -36,9 +36,6 @@ impl Rng {
     pub fn pick<'a, T>(&mut self, xs: &'a [T]) -> &'a T {
         &xs[self.below(xs.len() as u64) as usize]
     }
-    pub fn fork(&mut self) -> Rng {
-        Rng(self.next())
-    }
 }
 
 thread_local! {
